@@ -30,11 +30,21 @@ def gen_body(rng, ident, allow=("para", "bullets", "numbered", "fenced", "indent
     lines = []
     nblocks = rng.randint(1, max_blocks)
     prev = None
+    footnote = "footnote" in allow or (features is not None and "note" in allow and rng.random() < 0.12)
     for b in range(nblocks):
-        kind = rng.choice(allow)
+        kind = rng.choice([a for a in allow if a != "footnote"])
         if b == 0 and kind in ("indented",):
-            kind = "para"
-        if lines and not (prev == "note_unterminated_then_note"):
+            if rng.random() < 0.5:
+                kind = "para"
+            else:
+                feats.add("indented_code_first")
+        note_form = None
+        if kind == "note":
+            note_form = rng.choice(["inline_blank", "block_end", "inline_end", "end_with_trailing", "text_before_end", "unterminated_last", "two_consecutive",
+                                    "text_before_start", "multi_para_end", "end_with_trailing_then_text"])
+        if lines and prev == "para" and kind == "note" and note_form != "text_before_start" and rng.random() < 0.35:
+            feats.add("note_directly_after_text")  # no blank line between the paragraph and the box
+        elif lines and not (prev == "note_unterminated_then_note"):
             lines.append("")
         feats.add(kind)
         if kind == "para":
@@ -62,8 +72,7 @@ def gen_body(rng, ident, allow=("para", "bullets", "numbered", "fenced", "indent
         elif kind == "note":
             t = rng.choice(NOTE_TYPES)
             tt = rng.choice([t, t.upper(), t.capitalize()]) if rng.random() < 0.3 else t
-            form = rng.choice(["inline_blank", "block_end", "inline_end", "end_with_trailing", "text_before_end", "unterminated_last", "two_consecutive",
-                               "text_before_start", "multi_para_end", "end_with_trailing_then_text"])
+            form = note_form
             feats.add("note:" + form)
             if form == "inline_blank":
                 lines.append(f"@{tt} {w.take(3)}")
@@ -88,6 +97,14 @@ def gen_body(rng, ident, allow=("para", "bullets", "numbered", "fenced", "indent
             else:
                 lines += [f"@{tt}", w.take(2), "", w.take(2), f"@end{tt}"]
         prev = kind
+    if footnote:
+        # a footnote: reference in a closing paragraph, definition last (rendered at the end of the documentation)
+        feats.add("footnote")
+        if lines:
+            lines.append("")
+        lines.append(f"{w.take(2)} [^1] {w.take(1)}")
+        lines.append("")
+        lines.append(f"[^1]: {w.take(3)}")
     return lines, feats
 
 
